@@ -24,6 +24,7 @@ class Occ(object):
         self.label = label
         self.env = {}          # var -> (value, publisher occ id)
         self.anc = set()       # ids of causal ancestor occurrences
+        self.danc = set()      # ids of data ancestors (routed upstream)
         self.id = None
         self.state = None
         self.result = None
@@ -358,6 +359,7 @@ class RefRun(object):
                                 [s for s in srcs])
         for s in srcs:
             j.anc |= s.anc | {s.id}
+            j.danc |= s.danc | {s.id}
         if t['join'] != 'all':
             total = len(self.inbound_specs(name))
             if len(srcs) < total or getattr(j, 'partial_open', False):
@@ -415,7 +417,7 @@ class RefRun(object):
             # maximal publishers
             pubs = list(cands)
             maximal = [p for p in pubs if p != -1 and not any(
-                q != p and q != -1 and p in self.occs[q].anc for q in pubs)]
+                q != p and q != -1 and p in self.occs[q].danc for q in pubs)]
             if -1 in pubs:
                 res[k] = (RACY, -1)
             elif len(maximal) == 1:
@@ -775,6 +777,7 @@ class RefRun(object):
                     n = self.new_occ(to)
                     n.env = self.out_env(o)
                     n.anc = o.anc | {o.id}
+                    n.danc = o.danc | {o.id}
                     n.ckey = '%s(%s:%s)' % (to, o.ckey, ev)
                     self.ready.append(n)
 
@@ -814,6 +817,7 @@ class RefRun(object):
                 envs.append(self.out_env(ro))
                 srcs.append(ro)
                 o.anc |= ro.anc | {ro.id}
+                o.danc |= ro.danc | {ro.id}
             o.env = self.merge_envs(envs, srcs) if envs else {}
             self.exec_occ(o)
             done[n] = o.state
